@@ -109,11 +109,21 @@ func HarnessProxyError() {
 		// the same failure behind the response-buffering middleware (as NewTarget wires it)
 		inner = WithResponseBufferMiddleware(1024, 0, inner)
 	}
+	// the service's own handler chain as the real constructor builds it (custom error pages, when configured, inside the
+	// root's built-in pages), in front of a balancer whose only target fails in the chosen way
+	opts := ServiceOptions{Hosts: []string{"h"}}
 	if customMode != 0 {
 		vCustomSets["/pages"] = &vPageSet{name: "custom", has: map[string]bool{page: customMode == 1}}
-		inner, _ = WithErrorPageMiddleware(vDirFS("/pages"), false, inner)
+		opts.ErrorPagePath = "/pages"
 	}
-	root := vRootChain(inner)
+	svc, serr := NewService("svc", opts, TargetOptions{HealthCheckConfig: HealthCheckConfig{Path: "/up"}})
+	vAssert(serr == nil, "proxyerr: service builds")
+	t.proxyHandler = inner
+	lb := &LoadBalancer{healthy: TargetList{}, all: TargetList{t}}
+	t.stateConsumer = lb
+	lb.updateHealthyTargets()
+	svc.active = lb
+	root := vRootChain(svc)
 	w := vNewRecorder()
 	root.ServeHTTP(w, vPlainRequest("/x"))
 	w.finish()
